@@ -308,7 +308,49 @@ def rule_for_index(text, ctx, where):
     return text, n
 
 
-RULES = {"for_index": rule_for_index, "map_err_q": rule_map_err_q, "iter_any": rule_iter_any, "opt_map_or": rule_opt_map_or, "mutself": rule_mutself, "fmtmsg": rule_fmtmsg, "pubfields": rule_pubfields, "T": rule_T, "attrs": rule_attrs, "cell": rule_cell}
+def rule_assert_partial(text, ctx, where):
+    """PARTIAL mode: `assert!(E);` / `debug_assert!(E);` -> `{ let __aN = E; proof { assume(__aN); } }`
+    (E is still evaluated, with its effects; what follows is proved only for executions where the assertion held)"""
+    n = 0
+    while True:
+        m = mask(text)
+        mt = re.search(r"\b(debug_)?assert!\s*\(", m)
+        if not mt:
+            break
+        b = mt.end() - 1
+        e = match_delim(m, b)
+        semi = e + 1
+        while semi < len(m) and m[semi].isspace():
+            semi += 1
+        if semi >= len(m) or m[semi] != ";":
+            raise AnchorLost(f"{where}: assert! not used as a statement")
+        inner = text[b + 1:e]
+        # drop a trailing message argument:  assert!(cond, "msg", ..)  -> cond   (split at depth-0 comma)
+        mi = mask(inner)
+        depth, cut = 0, None
+        for k, ch in enumerate(mi):
+            if ch in "([{":
+                depth += 1
+            elif ch in ")]}":
+                depth -= 1
+            elif ch == "," and depth == 0:
+                cut = k
+                break
+        cond = inner if cut is None else inner[:cut]
+        text = text[:mt.start()] + f"{{ let __a{n} = {cond.strip()}; proof {{ assume(__a{n}); }} }}" + text[semi + 1:]
+        n += 1
+    return text, n
+
+
+def rule_unreachable_partial(text, ctx, where):
+    """PARTIAL mode: `unreachable!()` -> `{ proof { assume(false); } unreachable!() }` (reaching it is a panic, not a wrong
+    result; what is proved holds for executions that do not reach it)"""
+    n = len(re.findall(r"\bunreachable!\(\)", mask(text)))
+    text = re.sub(r"\bunreachable!\(\)", "{ proof { assume(false); } unreachable!() }", text)
+    return text, n
+
+
+RULES = {"unreachable_partial": rule_unreachable_partial, "assert_partial": rule_assert_partial, "for_index": rule_for_index, "map_err_q": rule_map_err_q, "iter_any": rule_iter_any, "opt_map_or": rule_opt_map_or, "mutself": rule_mutself, "fmtmsg": rule_fmtmsg, "pubfields": rule_pubfields, "T": rule_T, "attrs": rule_attrs, "cell": rule_cell}
 
 
 def apply_rules(text, rules, ctx, counts, where):
